@@ -36,6 +36,7 @@ LOOKUPS = [
     "links",
     "in_links_of",
     "out_links_of",
+    "elements",
 ]
 MUTATORS = ("add_node", "add_nodes", "add_link", "add_links", "add_origin", "add_destination", "add_path")
 
@@ -248,6 +249,14 @@ class Session:
                         fail(f"{what}({lab(n)}) = {sorted(map(key, got))}, graph says {sorted(map(key, exp))}")
                     if len(view) != len(exp):
                         fail(f"len({what}({lab(n)})) = {len(view)} != {len(exp)}")
+            elif what == "elements":
+                exp = [d["link"] for _, _, d in G.edges(data=True)]
+                exp += [d["origin"] for d in G._node.values() if "origin" in d]
+                exp += [d["destination"] for d in G._node.values() if "destination" in d]
+                got = list(net.elements)
+                # an element attached several times may be listed once or once per attachment
+                if {id(x) for x in got} != {id(x) for x in exp}:
+                    fail(f"elements {sorted(lab(x) for x in got)} != graph {sorted(lab(x) for x in exp)}")
             else:  # pragma: no cover
                 raise core.HarnessError(f"unknown lookup {what}")
         except Violation:
@@ -511,6 +520,8 @@ def touch_lookup(net, what: str):
         elif what in ("in_links_of", "out_links_of"):
             for n in list(net._graph._node):
                 list(net.in_links(n) if what == "in_links_of" else net.out_links(n))
+        elif what == "elements":
+            list(net.elements)
         else:
             getattr(net, what)
     except Exception:
